@@ -1130,6 +1130,12 @@ class ExcAnalysis:
                         return True
                     if any(_positive_in(c, key, cont) for c in g.ifs):
                         return True
+                    # for K in [c for c in XS if c in D (and ...)]: every K is a key of D
+                    it = g.iter
+                    if isinstance(g.target, ast.Name) and g.target.id == key and isinstance(it, (ast.ListComp, ast.GeneratorExp, ast.SetComp)) and len(it.generators) == 1:
+                        ig = it.generators[0]
+                        if isinstance(it.elt, ast.Name) and isinstance(ig.target, ast.Name) and it.elt.id == ig.target.id and any(_positive_in(c, ig.target.id, cont) for c in ig.ifs):
+                            return True
             # earlier sibling: `if k not in D: return/raise/continue`
             body = None
             for fld in ("body", "orelse", "finalbody"):
